@@ -129,20 +129,20 @@ RANDOM_ONLY = {
         dict(kind='wtlfu', **wt(4, 3, 8, 30, 18, [1, 2, 3], random=(16, 400))),
         # big scopes (sizes 16..100, long histories): thresholds, batch sizes, "optimisations for large caches", size
         # relations such as one segment at least four times the other, the default 1/19/80 W-TinyLFU split
-        dict(kind='raw', **raw(40, [0, 1, 2, 5, 10, 36, 38, 39, 41, 64], 64, [1, 2, 3], random=(8, 1500))),
-        dict(kind='slru', **slru(20, 24, 64, [1, 2, 3], random=(8, 1500))),
-        dict(kind='slru', **slru(4, 16, 32, [1, 2, 3], random=(8, 1500))),
-        dict(kind='slru', **slru(33, 5, 56, [1, 2, 3], random=(8, 1500))),
-        dict(kind='2q', **twoq(40, 10, 20, 72, [1, 2, 3], random=(8, 1500))),
-        dict(kind='2q', **twoq(16, 4, 8, 28, [1, 2, 3], random=(8, 1000))),
+        dict(kind='raw', **raw(40, [0, 1, 2, 5, 10, 36, 38, 39, 41, 64], 64, [1, 2, 3], random=(12, 1500))),
+        dict(kind='slru', **slru(20, 24, 64, [1, 2, 3], random=(12, 1500))),
+        dict(kind='slru', **slru(4, 16, 32, [1, 2, 3], random=(12, 1500))),
+        dict(kind='slru', **slru(33, 5, 56, [1, 2, 3], random=(12, 1500))),
+        dict(kind='2q', **twoq(40, 10, 20, 72, [1, 2, 3], random=(12, 1500))),
+        dict(kind='2q', **twoq(16, 4, 8, 28, [1, 2, 3], random=(12, 1000))),
         # ratio extremes at a larger size: quota = size, quota = size - 1, quota 0 with ghost = size
-        dict(kind='2q', **twoq(16, 16, 16, 30, [1, 2, 3], random=(8, 1000))),
-        dict(kind='2q', **twoq(16, 15, 8, 28, [1, 2, 3], random=(8, 1000))),
-        dict(kind='2q', **twoq(20, 0, 20, 36, [1, 2, 3], random=(8, 1000))),
-        dict(kind='arc', **arc(32, 72, [1, 2, 3], random=(8, 1500))),
-        dict(kind='arc', **arc(16, 36, [1, 2, 3], random=(8, 1000))),
-        dict(kind='wtlfu', **wt(8, 20, 24, 100, 72, [1, 2, 3], random=(8, 1500))),
-        dict(kind='wtlfu', **wt(1, 19, 80, 200, 130, [1, 2, 3], random=(6, 2500))),
+        dict(kind='2q', **twoq(16, 16, 16, 30, [1, 2, 3], random=(12, 1000))),
+        dict(kind='2q', **twoq(16, 15, 8, 28, [1, 2, 3], random=(12, 1000))),
+        dict(kind='2q', **twoq(20, 0, 20, 36, [1, 2, 3], random=(12, 1000))),
+        dict(kind='arc', **arc(32, 72, [1, 2, 3], random=(12, 1500))),
+        dict(kind='arc', **arc(16, 36, [1, 2, 3], random=(12, 1000))),
+        dict(kind='wtlfu', **wt(8, 20, 24, 100, 72, [1, 2, 3], random=(12, 1500))),
+        dict(kind='wtlfu', **wt(1, 19, 80, 200, 130, [1, 2, 3], random=(8, 2500))),
         # counter saturation: few keys, a sample window far longer than the history, so that victim and candidate both sit
         # at the ceiling of the 4-bit counters (15, 16 with the doorkeeper) when they are compared
         dict(kind='wtlfu', **wt(1, 1, 1, 1000, 4, [1, 2], random=(12, 400))),
